@@ -167,7 +167,7 @@ fn tl(cycle: f32, delay: f32, repeat: Rep, reverse: bool, de: Option<usize>, kfs
     TlSpec { cycle, delay, repeat, reverse, default_easing: de.map(Eas::Builtin), kfs }
 }
 
-/// Hand-picked S4 {a: f32, b: f32, c: i32, d: f64} animator configurations covering finite, delayed,
+/// Hand-picked S4 {a: f32, b: f32, c: i32, d: f64} animator configurations covering finite, delayed, very slow,
 /// Times(n), reversing, infinite, merged, 100 %-only, 0 %-only, sparse and un-animated states.
 pub fn fixed_pool() -> Vec<AnimSpec> {
     let p0 = AnimSpec {
@@ -226,7 +226,20 @@ pub fn fixed_pool() -> Vec<AnimSpec> {
             vec![],
         ],
     };
-    vec![p0, p1, p2, p3]
+    // very slow timelines (a frame is a tiny fraction of a cycle), finite and infinite
+    let p4 = AnimSpec {
+        initial_state: 0,
+        initial_values: s(vec![0.0, 0.0, 0.0, 0.0]),
+        force_merged: false,
+        states: vec![
+            vec![tl(65536.0, 0.0, Rep::None, false, None, vec![kf(0.0, &[s(0.0), s(1000.0), s(0.0), s(-5.0)], None), kf(1.0, &[s(65536.0), s(-1000.0), s(2000000.0), s(5.0)], None)])],
+            vec![],
+            vec![tl(16384.0, 0.125, Rep::Infinite, true, s(9), vec![kf(0.0, &[s(-100.0), None, s(0.0), None], None), kf(1.0, &[s(900.0), None, s(1000000.0), None], None)])],
+            vec![tl(262144.0, 0.0, Rep::Times(1), false, s(3), vec![kf(0.25, &[s(50.0), s(60.0), None, None], None), kf(1.0, &[s(-50.0), s(-60.0), s(999999.0), s(1.0)], None)])],
+            vec![tl(1.0, 0.0, Rep::None, false, None, vec![kf(1.0, &[s(1.0), s(2.0), s(3.0), s(4.0)], None)])],
+        ],
+    };
+    vec![p0, p1, p2, p3, p4]
 }
 
 pub const ALPHABET: [Op; 10] = [
@@ -271,6 +284,15 @@ pub fn random_anim<S: Shape>(r: &mut Rng) -> AnimSpec {
     for st in spec.states.iter_mut() {
         for t in st.iter_mut() {
             t.kfs.dedup_by(|a, b| a.pos == b.pos);
+        }
+    }
+    // one configuration in five has a very slow state: cycles of 2^12..2^18 s (still dyadic), so that
+    // an ordinary frame is a tiny fraction (below f32 epsilon) of a cycle
+    if r.chance(1, 5) {
+        let k = r.usize(5);
+        let f = (1u32 << (12 + r.below(7))) as f32;
+        for t in spec.states[k].iter_mut() {
+            t.cycle *= f;
         }
     }
     spec
